@@ -626,6 +626,16 @@ class Gen:
             return L.assign(L.var(name), L.fn("count_headers"))
         return L.assign(L.var(name), L.hdr(r.choice(["extra", "hb", "new one"])))
 
+    def boolean_free(self, d):
+        """a condition that reads no variables: for components that are INSERTED among the others afterwards (a variable is only
+        read after the component that assigns it)"""
+        saved = (self.numvars, self.txtvars, self.anyvars)
+        self.numvars, self.txtvars, self.anyvars = [], [], []
+        try:
+            return self.boolean(d)
+        finally:
+            self.numvars, self.txtvars, self.anyvars = saved
+
     # ---- one top-level component
     def component(self):
         r = self.r
@@ -711,7 +721,7 @@ class Gen:
         if "errors" in self.groups and "control" in self.groups and not self.no_headers and r.random() < 0.4:
             # an error pending on a line that a later skip() ends: the skip leaves the line at once, the error is still handed to the
             # handler with that line's number (every way out of Matcher.matches goes through clear_errors - Eval!Flush)
-            cond = self.boolean(1)
+            cond = self.boolean_free(1)
             if cond["k"] in ("hdr", "var", "term"):
                 cond = L.fn("exists", self.nonterm(cond)) if cond["k"] != "term" else L.fn("yes")
             comps.insert(r.randint(0, len(comps)), L.err(self.href_any()))
@@ -739,7 +749,7 @@ class Gen:
             arg = self.href(r.choice(strict_num)) if (strict_num and r.random() < 0.4) else L.term(0)
             c = L.fn("counter", arg, quals=[self.fresh("c")])
             if r.random() < 0.4:
-                cond = self.boolean(1)
+                cond = self.boolean_free(1)
                 c = L.when(self.href_any() if cond["k"] == "term" else cond, c)
             comps.insert(r.randint(0, len(comps)), c)
         if "validity" in self.groups and r.random() < 0.3:
